@@ -34,7 +34,7 @@ CLAIMED = {
                   '(payloads equal to reference layouts written from the published definitions) or the handler\'s choice or exactly one NAK to the requester; broadcast requests never originate a NAK; nothing while the claim is '
                   'pending; dispatch by destination; retry timing of refused information answers.  Tied to the C++ by correspondence; independent reference machine as oracle.',
              note=TB + 'Hypotheses named in Spec/IsoSpec.v (on_bus, driver_accepts, protocol_pgns_single, info_fits); the refuted unhypothesised readings (address above 251, NAK dropped when the queue is full) are machine-checked witnesses.',
-             design='6 C08', ready=False, technique='Coq proof over executable model + extracted-model/implementation correspondence'),
+             design='6 C08', technique='Coq proof over executable model + extracted-model/implementation correspondence'),
  'C18': dict(text='Theorems for every message history about a Gallina model of tN2kDeviceList (object-id heap with explicit freed state): no use of a freed entry, no index outside Sources[] (the C07 half); at most one entry '
                   'per non-zero NAME; by-NAME and by-source look-ups agree with an abstract NAME->address mirror for every undisplaced NAME; PGN lists and (ASCII) configuration information are reported back, the updated flag is '
                   'raised on every change; the product-information clause is refuted for the parked-device history (known finding) and proved without it.  Model tied to the C++ by correspondence on message histories.',
